@@ -335,9 +335,107 @@ func simC19Walk(c *Ctx) {
 	// ---- Transform
 	switch mode {
 	case 3, 4, 8: // replace one member (8: from the Enter side, before the member is traversed)
+		if mode == 8 && c.G(3) == 0 {
+			// ... or every member of one list / map of primitives, consistently, by structures of one other type:
+			// the collection changes its element type, and what is traversed is what Enter returned
+			var colls []int
+			for i, x := range nodes {
+				if (x.d.T.K == KList || x.d.T.K == KMap) && x.d.St == StKnown && len(x.d.Elems) > 0 && x.d.T.Elem.K <= KBool && !x.underSet && !x.inSet {
+					ok := true
+					for a := x.parent; a >= 0; a = nodes[a].parent {
+						if k := nodes[a].d.T.K; k != KTuple && k != KObject {
+							ok = false
+						}
+					}
+					if ok {
+						colls = append(colls, i)
+					}
+				}
+			}
+			if len(colls) > 0 {
+				cn := nodes[colls[c.G(len(colls))]]
+				replT := []*TDesc{{K: KObject, Names: []string{"a", "b"}, Elems: []*TDesc{tString, tNumber}}, {K: KList, Elem: tString}, {K: KTuple, Elems: []*TDesc{tBool, tString}},
+					{K: KMap, Elem: tNumber}, {K: KObject, Names: []string{"k"}, Elems: []*TDesc{{K: KList, Elem: tString}}}}[c.G(5)]
+				newRoot := cloneDesc(d)
+				cur := newRoot
+				for _, ix := range cn.idx {
+					cur = cur.Elems[ix]
+				}
+				nt := *cur.T
+				nt.Elem, nt.cached = replT, nil
+				cur.T = &nt
+				byKey := map[string]cty.Value{}
+				for i := range cur.Elems {
+					r := genValue(c, replT, 2, GenOpts{Unknown: true, Null: true, MaxLen: 2})
+					r.stripMarksDeep()
+					if r.St != StKnown && len(cur.Elems) > 1 {
+						r.St, r.Ref = StNull, nil // (an unknown member next to typed ones would be fine too; keep the model simple)
+					}
+					cur.Elems[i] = r
+					var sk string
+					if cur.T.K == KList {
+						sk = stepKeyIndex(i)
+					} else {
+						sk = stepKeyString(cur.Keys[i])
+					}
+					k := sk
+					if cn.key != "" {
+						k = cn.key + "/" + sk
+					}
+					byKey[k] = r.Build()
+				}
+				c.Fired("cb.replace")
+				c.Probe("c19.replace-all-members-on-enter")
+				c.Event("replace every member of %s by a %s", cn.key, replT)
+				left := map[string]int{}
+				res, terr := cty.TransformWithTransformer(root, &c19Transformer{
+					enter: func(p cty.Path, v cty.Value) (cty.Value, error) {
+						if rv, ok := byKey[renderPath(p)]; ok {
+							return rv, nil
+						}
+						return v, nil
+					},
+					exit: func(p cty.Path, v cty.Value) (cty.Value, error) {
+						left[renderPath(p)]++
+						return v, nil
+					}})
+				c.API("TransformWithTransformer")
+				if terr != nil {
+					c.Fail("C19", "transform-spurious-error", "transform-spurious-error", "Transform returned %v although no callback failed", terr)
+				}
+				observe(c, res, "Transform")
+				var after []mnode
+				enumerate(newRoot, "", nil, -1, false, false, &after)
+				for _, an := range after {
+					if left[an.key] != 1 {
+						c.Fail("C19", "transform-visit-count", "transform-visit-count:after-enter-replacement-of-all-members", "after Enter replaced every member of %q by a %s, the member at %q of the result was left %d times by the traversal (want once)\nresult: %s", cn.key, replT, an.key, left[an.key], newRoot)
+					}
+				}
+				if want := newRoot.Build(); !sameModuloSetOrder(res, want) {
+					c.Fail("C19", "transform-replace-disturbed", "transform-replace-all:"+kindNames[cn.d.T.K], "replacing every member of %q gave %s, want %s", cn.key, safeGoString(res), newRoot)
+				}
+				break
+			}
+		}
 		ri := c.F(len(nodes))
+		if c.G(4) == 0 {
+			// prefer a direct member of a set, if there is one
+			var ms []int
+			for i, x := range nodes {
+				if x.inSet {
+					ms = append(ms, i)
+				}
+			}
+			if len(ms) > 0 {
+				ri = ms[c.G(len(ms))]
+			}
+		}
 		n := nodes[ri]
-		o := GenOpts{Marks: !n.underSet && !n.inSet, Unknown: true, Null: true, Refine: true, MaxLen: 2}
+		// (a replacement for a direct member of a set may carry marks too: building the set lifts them onto the set,
+		// next to the marks the set carries itself - the library's own constructors are the model of that)
+		markedSetMember := n.inSet && nodes[n.parent].parent < 0 || n.inSet && !nodes[n.parent].underSet
+		markedSetMember = markedSetMember && c.G(2) == 0
+		o := GenOpts{Marks: (!n.underSet && !n.inSet) || markedSetMember, MarkDense: markedSetMember, Unknown: true, Null: true, Refine: true, MaxLen: 2}
 		replT := n.d.T
 		structural := true // every enclosing value is a tuple or an object (a collection's members must keep one type)
 		for a := n.parent; a >= 0; a = nodes[a].parent {
@@ -357,8 +455,11 @@ func simC19Walk(c *Ctx) {
 		}
 		repl := genValue(c, replT, 2, o)
 		stripSetMarks(repl)
-		if n.underSet || n.inSet {
+		if (n.underSet || n.inSet) && !markedSetMember {
 			repl.stripMarksDeep()
+		}
+		if markedSetMember {
+			c.Probe("c19.replace-set-member-by-marked")
 		}
 		dedupeSets(repl, true)
 		c.Fired("cb.replace")
@@ -372,6 +473,22 @@ func simC19Walk(c *Ctx) {
 				cur = cur.Elems[ix]
 			}
 			cur.Elems[n.idx[len(n.idx)-1]] = repl
+			if markedSetMember {
+				// what building a set does with the marks of its members: they end up on the set (whether or not the
+				// member coalesces with an equal one)
+				inModel := cloneDesc(repl)
+				have := map[string]bool{}
+				for _, m := range cur.Marks {
+					have[m] = true
+				}
+				for _, m := range sortedKeysBool(allMarksOf(inModel)) {
+					if !have[m] {
+						cur.Marks = append(cur.Marks, m)
+					}
+				}
+				inModel.stripMarksDeep()
+				cur.Elems[n.idx[len(n.idx)-1]] = inModel
+			}
 		}
 		replV := repl.Build()
 		calls := 0
@@ -1311,4 +1428,13 @@ func sameModuloSetOrder(a, b cty.Value) bool {
 		return true
 	}
 	return ua.RawEquals(ub)
+}
+
+func sortedKeysBool(m map[string]bool) []string {
+	out := make([]string, 0, len(m))
+	for k := range m {
+		out = append(out, k)
+	}
+	sort.Strings(out)
+	return out
 }
